@@ -129,6 +129,20 @@ def drive_case(case):
             res = ProcessingPipelineResolver({f"p{pool[i - 1]['name']}": p for i, p in zip(ops, pipes)})
             composed = res.resolve([f"p{pool[i - 1]['name']}" for i in ops])
             b = Plain(composed)
+        elif op == "resolve_cwd":  # the working directory has a sub-directory named like every pipeline
+            import os, tempfile
+
+            res = ProcessingPipelineResolver({f"p{pool[i - 1]['name']}": p for i, p in zip(ops, pipes)})
+            here = os.getcwd()
+            with tempfile.TemporaryDirectory() as tmp:
+                for d in pool:
+                    os.mkdir(os.path.join(tmp, f"p{d['name']}"))
+                os.chdir(tmp)
+                try:
+                    composed = res.resolve([f"p{pool[i - 1]['name']}" for i in ops])
+                finally:
+                    os.chdir(here)
+            b = Plain(composed)
         elif op == "backend":
             b = backend_with(pipes[0], pipes[2])(pipes[1])
             fmt = "test"
